@@ -47,6 +47,7 @@ class C01(PropBase):
             u = {"k": "union", "sp": rng.choice(["pipe", "typing"]), "a": fam}
             roots.append(rng.choice([u, {"k": "list", "a": u}, {"k": "dict", "a": [{"k": "str"}, u]}, {"k": "tuple", "a": [{"k": fam[0]["k"]}, {"k": "td"}, u]}]))
             roots.append(roots[-1])
+        gen.one_order_per_member_set(world, roots)
         steps = []
         n = rng.randint(1, 14 if tier == "quick" else 40)
         fk = [k for k in sw if k in ("clear", "shrink", "zone", "clock", "clear_typing")]
